@@ -138,7 +138,7 @@ CLAIMED = {
          'Trusted: Lean kernel, Mathlib, object generator/encoder and independent parse-back in the harness; Python str() of shapeless objects is an input; Nat.repr renders digits.',
          'Lean 4 proofs about an exact rendering model (row-major coverage by induction over chunks, exact rounding bound) + character-exact differential correspondence + totality / parse-back falsifier',
          'DESIGN.md section 5 C20'),
- 'C17': ('Partial proof: a translator (translate/gen_c17.py) reads the two JIT modules on every run and regenerates 408 Lean 4 theorems: one per integer subscript / constant slice of every one of the 47 @jit kernels (306) and one per resolvable argument relation at every kernel call in arm_model.py / sp_model.py / faser_transform.py / basic_helpers.py (102: the slice stays inside its parent, extents the kernel relates are equal at the call — the FKLink defect was exactly such an inequality): '
+ 'C17': ('Partial proof: a translator (translate/gen_c17.py) reads the two JIT modules on every run and regenerates 568 Lean 4 theorems: one per integer subscript / constant slice of every one of the 47 @jit kernels (306), one per array a kernel hands to another kernel (160: its extent is at least what the callee documents, e.g. Norm is never given a two-element slice) and one per resolvable argument relation at every kernel call in arm_model.py / sp_model.py / faser_transform.py / basic_helpers.py (102: the slice stays inside its parent, extents the kernel relates are equal at the call — the FKLink defect was exactly such an inequality): '
          'under the documented argument shapes, the ranges of the enclosing loops and the integer guards of the enclosing ifs, the index lies within the extent of the array (each closed by omega; local array shapes are inferred from the source; one loop invariant is declared and itself generated as obligations). '
          'A changed loop bound, index offset, local array size or dropped guard makes a theorem false and the build fail; a subscript the translator cannot resolve makes it refuse the source. '
          'The documented argument / return shapes are checked against the inputs really passed and values really returned. '
